@@ -16,10 +16,34 @@ import (
 type Goroutine struct {
 	ID        string
 	Stack     string
+	State     string // "select", "IO wait", "runnable", …
 	CreatedBy string // function named in the "created by" line ("" for main)
 }
 
-var reHeader = regexp.MustCompile(`^goroutine (\d+) `)
+var reHeader = regexp.MustCompile(`^goroutine (\d+) \[([^\],]*)`)
+
+// blocked reports whether the goroutine is parked at a blocking operation (as opposed to being on its way
+// out after its last wg.Done()/close(done)).
+func (g Goroutine) blocked() bool {
+	switch g.State {
+	case "select", "IO wait", "chan receive", "chan send", "sync.Cond.Wait", "sync.Mutex.Lock", "sync.RWMutex.Lock",
+		"sync.RWMutex.RLock", "semacquire", "sleep", "sync.WaitGroup.Wait", "select (no cases)", "chan receive (nil chan)":
+		return true
+	}
+	return false
+}
+
+// blockedLib lists the library goroutines of one side, not in base, that are blocked right now.
+func blockedLib(base map[string]bool, side string) []Goroutine {
+	var out []Goroutine
+	for _, g := range libGoroutines(base)[side] {
+		if g.blocked() {
+			out = append(out, g)
+		}
+	}
+	return out
+}
+
 var reCreated = regexp.MustCompile(`(?m)^created by (\S+)`)
 
 func dumpGoroutines() []Goroutine {
@@ -38,7 +62,7 @@ func dumpGoroutines() []Goroutine {
 		if m == nil {
 			continue
 		}
-		g := Goroutine{ID: m[1], Stack: blk}
+		g := Goroutine{ID: m[1], Stack: blk, State: m[2]}
 		if c := reCreated.FindStringSubmatch(blk); c != nil {
 			g.CreatedBy = c[1]
 		}
